@@ -1011,8 +1011,12 @@ DISCR_EXPRS = {
     "u64top": [("5", 5), ("u64::MAX - 1", 2**64 - 2), None, ("2", 2)],
     "u32top": [("0x8000_0000", 2**31), None, ("7", 7), ("u32::MAX", 2**32 - 1)],
     "u16top": [("0xFFFF", 65535), ("3", 3), ("0x8000", 32768), None],
+    # expressions whose value depends on the type their literals are given: typed as the repr type (as rustc types a
+    # discriminant) `!0 / 2` is 127 for u8; typed as i32 and cast afterwards it is 0
+    "notdiv": [("!0 / 2", 127), ("100", 100), ("!0 >> 2", 63), None],
+    "notdiv16": [("!0 / 3", 21845), ("7", 7), ("!0 >> 15", 1), None],
 }
-UNSIGNED_TOP = {"umax": ["usize"], "u64top": ["u64"], "u32top": ["u32"], "u16top": ["u16"]}
+UNSIGNED_TOP = {"umax": ["usize"], "u64top": ["u64"], "u32top": ["u32"], "u16top": ["u16"], "notdiv": ["u8"], "notdiv16": ["u16"]}
 
 
 def layout_enum(pid, payloads, dname, repr_, md, note_extra="", neighbours=False):
